@@ -558,6 +558,10 @@ func init() {
 	reg("strconv.Itoa", "strconv.Itoa: deterministic (uninterpreted decimal rendering)", func(fv *FuncVerifier, st *State, env *Env, c *CallCtx) []Term {
 		return []Term{fv.uf("itoa", "Seq_Int", "", c.args[0])}
 	})
+	reg("golang.org/x/mod/sumdb/dirhash.HashDir", "dirhash.HashDir(dir, prefix, hash): the hash is a deterministic function of (dir, prefix) - i.e. of the directory CONTENTS, assumed - no effect; the error is arbitrary", func(fv *FuncVerifier, st *State, env *Env, c *CallCtx) []Term {
+		// the same uninterpreted function as the spec function types.spec_hashDir(dir) of /repo's contracts
+		return []Term{fv.uf("sp_pkg_types_spec_hashDir", "Seq_Int", "", c.args[0]), fv.fresh("hasherr", SRef)}
+	})
 	reg("go/types.NewPackage", "types.NewPackage(path, name): a non-nil *types.Package p with p.Path() == path (modelled as a deterministic function of its arguments; identity of the package object is not relied on)", func(fv *FuncVerifier, st *State, env *Env, c *CallCtx) []Term {
 		r := fv.uf("types_newpackage", SRef, "", c.args[0], c.args[1])
 		fv.w.UFun("ext_Pgo_types_Package_Path_0_Ref", []Sort{SRef}, "Seq_Int", "")
